@@ -117,7 +117,9 @@ def check_case(case, ctx):
 def run(spec, ctx):
     for i in range(spec['n']):
         rng = random.Random(f'C05/{spec["seed"]}/{spec["shard"]}/{i}')
-        case = WC.gen_case(rng, multi=False, caps=rng.choice([4, 8, 16, 32, 'perline']))
+        case = WC.gen_case(rng, multi=False, caps=rng.choice([4, 8, 16, 32, 'perline']) if i != 1 else None, large=(i == 1))
+        if i == 1:
+            ctx.count('large_cases')
         case['lsim'] = {'c_reuse': rng.random() < 0.3, 'strip_forks': rng.random() < 0.4}
         case['cap_time'] = rng.choice([None, None, None, 0.0, 20.25, 74.5, 150.0])
         if rng.random() < 0.6:
